@@ -132,6 +132,17 @@ func handlerFuncs(h *httpAnalysis, recvType string) []*types.Func {
 		if !takesWriter(fn) {
 			continue
 		}
+		// handlers proper: (w, r) or (x, w, r) with a *http.Request; or
+		// parse helpers returning a value
+		hasReq := false
+		for i := 0; i < sig.Params().Len(); i++ {
+			if sig.Params().At(i).Type().String() == "*net/http.Request" {
+				hasReq = true
+			}
+		}
+		if !hasReq && fn.Name() != "sendResponse" {
+			continue
+		}
 		out = append(out, fn)
 	}
 	sort.Slice(out, func(i, j int) bool { return out[i].Pos() < out[j].Pos() })
